@@ -679,6 +679,28 @@ pub fn gen_scenarios(seed: u64, tier: &str) -> Vec<Scenario> {
                 continue;
             }
         }
+        if id % 10 == 6 {
+            // directed: a server that has already looked at the shared path in this session (a refused Delete, a Get, or a
+            // conflicting Put) - then ANOTHER server commits a version of the SAME LENGTH (within the same second) - then
+            // the first server's client writes with the hash it saw first: the compare-and-swap must see the other
+            // server's commit, whatever the first server remembers about the file
+            let v0 = b"AAAA".to_vec();
+            let (v1, v2) = (b"BBBB".to_vec(), b"CCCC".to_vec());
+            let init = vec![(shared.to_string(), v0.clone())];
+            let first = match id % 3 {
+                0 => Req::Del { path: shared.to_string(), exp: Some(b"zzzz".to_vec()) },
+                1 => Req::Get { path: shared.to_string() },
+                _ => Req::Put { path: shared.to_string(), exp: None, decl: b"DDDD".to_vec(), len: 4, pieces: vec![b"DDDD".to_vec()] },
+            };
+            let p0 = vec![first, Req::Put { path: shared.to_string(), exp: Some(v0.clone()), decl: v2.clone(), len: 4, pieces: vec![v2.clone()] }];
+            let p1 = vec![Req::Put { path: shared.to_string(), exp: Some(v0.clone()), decl: v1.clone(), len: 4, pieces: vec![v1.clone()] }];
+            // p0 finishes its first request (its next pending gate is the staging open of its second one), p1 runs to completion
+            let mut policy = vec![Pol::StepUntil(0, "openw".to_string())];
+            if id % 3 == 2 { policy.push(Pol::Step(0)); policy.push(Pol::StepUntil(0, "openw".to_string())); }
+            policy.extend((0..60).map(|_| Pol::Step(1)));
+            out.push(Scenario { id, init, progs: vec![p0, p1], policy, class: "directed:seen-then-foreign-commit-same-length".into(), pidns: false });
+            continue;
+        }
         if id % 10 == 9 {
             // directed: lock hand-off with a third writer.  p0 holds the tree lock (request on another path) while p1 queues
             // on it; p0 releases; p1 passes its compare and stops before its rename; p2 arrives and must wait for p1.
